@@ -186,7 +186,20 @@ func (r *runner) checkGridAnswer(st *Step, c *Client, got []*RecvMsg) {
 			}
 			r.res.Triggers["grid_region_answer"]++
 		case *dagazpb.DagazGetGroundPlaneResponse:
-			if st.Variant != "centre" || len(stored) == 0 {
+			if st.Variant != "centre" || len(stored) == 0 || len(st.F) < 6 {
+				continue
+			}
+			// asserted only when the vertical ray really passes through a stored plane, clear of
+			// its edges (the sample the ray was aimed at may have been merged into another plane)
+			through := false
+			for _, sp := range stored {
+				dx, dz := float64(st.F[0]-sp.cx), float64(st.F[2]-sp.cz)
+				lo, hi := math.Min(float64(st.F[1]), float64(st.F[4])), math.Max(float64(st.F[1]), float64(st.F[4]))
+				if math.Abs(dx) < float64(sp.ex)-0.01 && math.Abs(dz) < float64(sp.ez)-0.01 && float64(sp.cy) > lo+0.01 && float64(sp.cy) < hi-0.01 {
+					through = true
+				}
+			}
+			if !through {
 				continue
 			}
 			p := planeOfPB(x.Ground)
@@ -264,9 +277,19 @@ func genC20(seed uint64, tier string) *Scenario {
 			g.steps = append(g.steps, Step{Conn: c, Op: "get_region", F: []float32{coord(), 0, coord(), coord(), 0, coord()}})
 		case x < 17:
 			g.steps = append(g.steps, Step{Conn: c, Op: "debug_info"})
-		case x < 19:
+		case x < 18:
 			if nc, ok := g.freshConn(); ok {
 				g.join(nc, "S0")
+			}
+		case x < 19:
+			// a member leaves at the very instant another one joins (when it is the sole member
+			// the session must survive with its planes if the join wins)
+			if nc, ok := g.freshConn(); ok {
+				g.nextBlk++
+				g.steps = append(g.steps, Step{Conn: c, Op: "close", Block: g.nextBlk}, Step{Conn: nc, Op: "join", Sess: "S0", Block: g.nextBlk})
+				g.dead[c] = true
+				g.joined[c] = ""
+				g.joined[nc] = "S0"
 			}
 		default:
 			if len(members) > 1 {
